@@ -170,8 +170,88 @@ func c10Server(p c10P, b Bounds) *Scenario {
 	}
 }
 
+// c10ServerUnencodable: replies that cannot be encoded (error data that is not JSON), alone and inside
+// batches, notification-only messages and an empty client batch: whatever is handed to Send must be
+// one whole message (never an empty record, an empty array or a torn array), and the server goes on.
+func c10ServerUnencodable() *Scenario {
+	msgs := []string{
+		`{"jsonrpc":"2.0","id":1,"method":"bad"}`,
+		`[{"jsonrpc":"2.0","id":2,"method":"ok"},{"jsonrpc":"2.0","id":3,"method":"bad"}]`,
+		`[{"jsonrpc":"2.0","id":4,"method":"bad"}]`,
+		`[{"jsonrpc":"2.0","id":5,"method":"bad"},{"jsonrpc":"2.0","id":6,"method":"ok"},{"jsonrpc":"2.0","id":7,"method":"ok"}]`,
+		`{"jsonrpc":"2.0","method":"ok"}`,
+		`[{"jsonrpc":"2.0","method":"ok"},{"jsonrpc":"2.0","method":"bad"}]`,
+		`{"jsonrpc":"2.0","method":"bad"}`,
+		`{"jsonrpc":"2.0","id":8,"method":"badresult"}`,
+	}
+	return &Scenario{
+		Name:   "server: replies that cannot be encoded (alone, in batches), notification-only messages; client: empty batch",
+		Params: map[string]any{"messages": msgs},
+		Bounds: Bounds{0, 0, 0},
+		New: func() *Instance {
+			body := func() {
+				lib, peer, _ := NewPipe(PipeOpts{Name: "srv", CloseUnblocksRecv: true, Monitor: true})
+				hd := func(ctx context.Context, req *jrpc2.Request) (any, error) {
+					switch req.Method() {
+					case "bad":
+						return nil, &jrpc2.Error{Code: 7, Message: "e", Data: []byte("not json")}
+					case "badresult":
+						return make(chan int), nil
+					}
+					return "OK", nil
+				}
+				srv := jrpc2.NewServer(anyAssigner{hd}, &jrpc2.ServerOptions{Concurrency: 1})
+				srv.Start(lib)
+				for _, m := range msgs {
+					peer.Send([]byte(m))
+					vs.AwaitQuiescence()
+				}
+				peer.Send([]byte(`{"jsonrpc":"2.0","id":99,"method":"ok"}`))
+				vs.AwaitQuiescence()
+				peer.Close()
+				srv.WaitStatus()
+				// the client side: a batch without entries transmits nothing
+				lib2, peer2, _ := NewPipe(PipeOpts{Name: "cli", CloseUnblocksRecv: true, Monitor: true})
+				c := jrpc2.NewClient(lib2, nil)
+				_, err1 := c.Batch(context.Background(), nil)
+				_, err2 := c.Batch(context.Background(), []jrpc2.Spec{})
+				vs.Note("empty-batch", errStr(err1), errStr(err2))
+				vs.AwaitQuiescence()
+				peer2.Close()
+				c.Close()
+			}
+			check := func(x *vs.Exec) []Viol {
+				v := genericRules(x, nil)
+				v = append(v, disciplineRules(x, "srv", 1)...)
+				v = append(v, disciplineRules(x, "cli", 1)...)
+				answered := false
+				for _, o := range outEvents(x, "srv") {
+					if len(o.Raw) == 0 {
+						v = append(v, Viol{"C10.R5", "an empty record was passed to Send"})
+					}
+					ms, _, _ := parseRecord([]byte(o.Raw))
+					for _, m := range ms {
+						if m.ID() == "99" && m.Has("result") {
+							answered = true
+						}
+					}
+				}
+				if x.Outcome == "ok" && !answered {
+					v = append(v, Viol{"C10.R5", "after the replies that could not be encoded the server no longer answers a valid call"})
+				}
+				for _, o := range outEvents(x, "cli") {
+					v = append(v, Viol{"C10.R5", "a batch without entries made the client transmit " + o.Raw})
+				}
+				return v
+			}
+			return &Instance{Body: body, Check: check}
+		},
+	}
+}
+
 func c10Scenarios(tier string) []*Scenario {
 	var out []*Scenario
+	out = append(out, c10ServerUnencodable())
 	q := tier == "quick"
 	b := Bounds{2, 2, 0}
 	bb := Bounds{1, 2, 0}
